@@ -173,6 +173,41 @@ func runC14(c C14Case) string {
 	default:
 		return "harness: unknown op " + c.Op
 	}
+	// no operation may change its operands (results must not share storage with
+	// them either: a second operation on the same operands gives the same answer)
+	if msg == "" {
+		for i, pair := range []struct {
+			d *ion.Decimal
+			j DecJ
+		}{{a, c.A}, {b, c.B}} {
+			gc, ge := pair.d.CoEx()
+			if gc.Cmp(pair.j.big()) != 0 || int64(ge) != pair.j.Exp {
+				msg = fmt.Sprintf("%s changed its %s operand from %vd%d to %vd%d", c.Op, []string{"first", "second"}[i], pair.j.big(), pair.j.Exp, gc, ge)
+			}
+		}
+	}
+	if msg == "" && (c.Op == "add" || c.Op == "sub" || c.Op == "mul") {
+		var r1, r2 *ion.Decimal
+		switch c.Op {
+		case "add":
+			r1 = a.Add(b)
+			_ = a.Sub(b)
+			r2 = a.Add(b)
+		case "sub":
+			r1 = a.Sub(b)
+			_ = a.Add(b)
+			r2 = a.Sub(b)
+		default:
+			r1 = a.Mul(b)
+			_ = b.Mul(a).Neg() // (exponents of a product's operands may be too far apart to add)
+			r2 = a.Mul(b)
+		}
+		c1, e1 := r1.CoEx()
+		c2, e2 := r2.CoEx()
+		if c1.Cmp(c2) != 0 || e1 != e2 {
+			msg = fmt.Sprintf("%s gives %vd%d, then (after another operation on the same operands) %vd%d: results or operands share storage", c.Op, c1, e1, c2, e2)
+		}
+	}
 	st.Eval(nt, model.DigestBytes(c.Op, []byte(fmt.Sprint(c.A, c.B, c.N))), cls)
 	st.Sample(func() string { return fmt.Sprintf("%s a=%vd%d b=%vd%d n=%d", c.Op, c.A.Coef, ae, c.B.Coef, be, c.N) })
 	return msg
@@ -209,6 +244,19 @@ func genC14(t *rapid.T) C14Case {
 	maxDelta := Scale(400, 5000)
 	delta := int64(gen.Pick(t, []int{0, 1, -1, 2, -3, 17, -17, gen.Range(t, -maxDelta, maxDelta), gen.Range(t, -30, 30)}))
 	b.Exp = clampExp(a.Exp + delta)
+	if gen.Chance(t, 25) && a.Coef.Sign() != 0 {
+		// b is a rescaled to another exponent, exactly or off by a little: equal
+		// and near-equal values with different exponents
+		k := int64(gen.Pick(t, []int{1, 2, 3, 4, 5, 6, 7, 9, 12, 15, 18, 19, 20, 21, 30}))
+		b.NegZero = false
+		b.Exp = clampExp(a.Exp - k)
+		k = a.Exp - b.Exp
+		b.Coef = new(big.Int).Mul(a.Coef, pow10(k))
+		b.Coef.Add(b.Coef, big.NewInt(int64(gen.Pick(t, []int{0, 0, 1, -1, 2, -7, 23, gen.Range(t, -1000, 1000)}))))
+		if gen.Chance(t, 30) {
+			a, b = b, a
+		}
+	}
 	switch c.Op {
 	case "mul":
 		if s := a.Exp + b.Exp; s > math.MaxInt32 || s < -math.MaxInt32 {
